@@ -52,3 +52,30 @@ Lemma shared_instance_breaks_isolation_refuted :
     resq_eqb (nth 1 shared Err) (Ok (11 # 3)%Q) = true /\
     resq_eqb (nth 1 fresh Err) (nth 1 shared Err) = false.
 Proof. exists ex_base, ex_cands. vm_compute. repeat split; reflexivity. Qed.
+
+(* ---- params column from a second pass over the candidate source (regression C08-c) ---------------
+   A sampler whose passes differ (random_state=None / a RandomState instance): first pass
+   [{d: -2}; {e: 0}], second pass [{e: 0}; {d: -2}].  The two-pass variant scores the first list
+   (means 11/3 and 3, best_index_ 1, best_score_ 3) and reports the second: row 0 shows {e: 0} next to
+   the mean of {d: -2}, and best_params_ = {d: -2}, whose own mean is 11/3, not best_score_. *)
+Definition flip_draw (g : bool) : list (list pset) * bool :=
+  (if g then [[PCoef 3 (-2)]; [PCoef 4 0]] else [[PCoef 4 0]; [PCoef 3 (-2)]], negb g).
+
+Lemma second_pass_misaligns_rows_refuted :
+  exists s,
+    search_two_pass Q (fun p => p + 7) (series ex_y) None (metric_of MMAE) false gen_ascending fc8
+                    (list pset) apply8 respond8 cutoff8 ex_base bool flip_draw true ex_sp Refit = Ok s /\
+    let own_mean p := fc_mean Q (fun p => p + 7) (series ex_y) None (metric_of MMAE) fc8 respond8
+                              cutoff8 ex_sp Refit (apply8 ex_base p) in
+    (* row 0: the reported candidate is not the one that was scored *)
+    resq_eqb (own_mean (nth 0 (s_params s) [])) (Ok (nth 0 (s_means s) 0%Q)) = false /\
+    (* best_params_ does not have the score best_score_ *)
+    s_best_index s = 1 /\ resq_eqb (own_mean (s_best s)) (Ok (s_best_score s)) = false /\
+    (* while the search proper, from the same generator state, is aligned *)
+    match fst (search_from Q (fun p => p + 7) (series ex_y) None (metric_of MMAE) false gen_ascending
+                           fc8 (list pset) apply8 respond8 cutoff8 ex_base bool flip_draw true ex_sp
+                           Refit) with
+    | Ok s1 => resq_eqb (own_mean (s_best s1)) (Ok (s_best_score s1)) = true
+    | Err => False
+    end.
+Proof. eexists. split; [vm_compute; reflexivity|]. vm_compute. repeat split; reflexivity. Qed.
